@@ -235,10 +235,15 @@ fn lit_strategy() -> BoxedStrategy<Lit> {
             // and small enough to fit (to the lexer and to run-time parsing this is a decimal
             // digit string with an invalid digit)
             if bad == 1 && base == 10 {
-                let (letter, b2) = [('b', 2u32), ('o', 8), ('x', 16), ('B', 2), ('X', 16)][badpos as usize % 5];
+                let (letter, b2) = [('b', 2u32), ('o', 8), ('x', 16), ('B', 2), ('X', 16), ('O', 8)][badpos as usize % 6];
                 let small = &r % pow2(bits.clamp(1, 64));
                 let mut t = String::from("0");
-                for _ in 0..1 + (badpos as usize / 5) % 3 {
+                // 0..=3 separators; without a separator only the upper-case letters are possible
+                // (`0X1F_U8` is the integer `0` with a suffix for the lexer, `0x1F_U8` a hex literal):
+                // a case-insensitive prefix test would accept them
+                let nsep = (badpos as usize / 6) % 4;
+                let letter = if nsep == 0 { letter.to_ascii_uppercase() } else { letter };
+                for _ in 0..nsep {
                     t.push('_');
                 }
                 t.push(letter);
